@@ -405,6 +405,7 @@ PROPERTIES = {
             ('C01-R6', cextra.rule_inverse_cleanup, 'quick'),  # unbalanced regex = re.error (F23)
             ('C02-R7', c02.rule_nodir, 'quick'),  # the tail of translate / compile_pattern indexes positive[0]
             ('C05-R4', cglob.rule_specials_and_start, 'quick'),  # F29: descriptor scans report str names
+            ('C13-R2', cglob.rule_yield_filtered, 'quick'),  # IndexError from an unguarded pop of the remaining parts
         ],
     },
 }
